@@ -30,6 +30,7 @@ import (
 	"os"
 	"path/filepath"
 	"sort"
+	"strconv"
 	"strings"
 	"sync"
 	"testing"
@@ -213,6 +214,10 @@ func vInstantiate(c *vCase, r *mrand.Rand) {
 			case "other":
 				pool = []int{2, 3, 5, 6, 7, 9, 10, 11, 12, 13, 15, 16}
 			default:
+				if n, err := strconv.Atoi(e.Code); err == nil && n >= 1 && n <= 16 {
+					pool = []int{n} // a status code given by number
+					break
+				}
 				for k := 1; k <= 16; k++ {
 					pool = append(pool, k)
 				}
@@ -242,7 +247,8 @@ func vRandomCase(tid string, r *mrand.Rand, tlsMode bool) vCase {
 		*e = vTpl{ID: "plain", Vmax: "none", Pol: "none", Sh: []string{}, Certs: []string{}, Cm: []string{}}
 		if tlsMode {
 			kinds := [][2]string{{"ca1", "tls13"}, {"ca1", "tls12"}, {"ca2", "tls13"}, {"ca2", "tls12"}, {"foreign", "tls13"}, {"selfsigned", "tls13"},
-				{"expired", "tls13"}, {"wrongname", "tls13"}, {"ca1", "tls11"}, {"ca2", "tls11"}, {"foreign", "tls12"}, {"expired", "tls11"}}
+				{"expired", "tls13"}, {"wrongname", "tls13"}, {"ca1", "tls11"}, {"ca2", "tls11"}, {"foreign", "tls12"}, {"expired", "tls11"},
+				{"hosttrusted", "tls13"}, {"hosttrusted", "tls12"}}
 			k := kinds[r.Intn(len(kinds))]
 			if r.Intn(3) == 0 {
 				k = kinds[r.Intn(4)]
@@ -373,7 +379,7 @@ func (p *vPKI) authority(cn string) *vAuthority {
 func vNewPKI(dir string) *vPKI {
 	vMust(os.MkdirAll(dir, 0o700))
 	p := &vPKI{dir: dir, ca: map[string]*vAuthority{}, caFile: map[string]string{}, leaves: map[string]*tls.Certificate{}}
-	for _, n := range []string{"ca1", "ca2", "caX", "cli"} {
+	for _, n := range []string{"ca1", "ca2", "caX", "caH", "cli"} {
 		p.ca[n] = p.authority("verif " + n)
 	}
 	w := func(name string, b []byte) string {
@@ -384,6 +390,12 @@ func vNewPKI(dir string) *vPKI {
 	p.caFile["ca1"] = w("ca1.pem", p.ca["ca1"].pem)
 	p.caFile["ca2"] = w("ca2.pem", p.ca["ca2"].pem)
 	p.caFile["concat"] = w("ca12.pem", append(append([]byte{}, p.ca["ca1"].pem...), p.ca["ca2"].pem...))
+	// the trust store of the RA's host, under the control of the harness: it holds the CA "caH" only.  Go reads these
+	// variables when the system pool is first used, which the code under test must never do for CA servers.
+	p.caFile["host"] = w("host_roots.pem", p.ca["caH"].pem)
+	vMust(os.MkdirAll(filepath.Join(dir, "empty_cert_dir"), 0o700))
+	vMust(os.Setenv("SSL_CERT_FILE", p.caFile["host"]))
+	vMust(os.Setenv("SSL_CERT_DIR", filepath.Join(dir, "empty_cert_dir")))
 	k, err := ecdsa.GenerateKey(elliptic.P256(), rand.Reader)
 	vMust(err)
 	now := time.Now()
@@ -419,6 +431,8 @@ func (p *vPKI) leaf(id string, pos int) *tls.Certificate {
 		parent = p.ca[id]
 	case "foreign":
 		parent = p.ca["caX"]
+	case "hosttrusted":
+		parent = p.ca["caH"]
 	case "selfsigned":
 		parent = nil
 	case "expired":
